@@ -1,8 +1,8 @@
-\* design-level check: PPModel with every deviation off refines the declarative Expand on space "redef"
+\* design-level check: PPModel with every deviation off refines the declarative Expand on space "q4s"
 SPECIFICATION Spec
 CONSTANTS
   Devs <- NoDevs
-  Space = "redef"
+  Space = "q4s"
   Modes = {"E"}
   EmitCases = FALSE
 INVARIANTS Inv_Ctx Inv_End Inv_Conform
